@@ -14,7 +14,7 @@ var c06CallerWaits = map[string]string{
 
 // index reads that are not part of the KV API the property lists
 var c06NotKV = map[string]string{
-	dbT + "VerifiableSQLGet": "SQL point read; SQL writers return only after their tx is indexed (SQLTx.Commit -> OngoingTx.Commit waits for indexing)",
+	dbT + "VerifiableSQLGet": "SQL point read, not one of the KV operations C06 quantifies over (it reads the live index without waiting; SQL commits are asynchronous w.r.t. indexing, so it may observe the previous version of a row — noted in DESIGN.md, not claimed)",
 }
 
 func isStoreAsIndex(v ssa.Value) bool {
